@@ -21,6 +21,8 @@ if _log or _crash:
     _fd = os.open(_log, os.O_WRONLY | os.O_APPEND | os.O_CREAT, 0o644) if _log else None
     _cnt = [0]
     _last = [None]
+    _dying = [False]
+    _last_idx = [-2]
     _k, _tear = (None, None)
     if _crash:
         _parts = _crash.split(":")
@@ -62,8 +64,13 @@ if _log or _crash:
                 mut = (ev, repr(args))
         if mut is None or (_root and _root not in mut[1]):
             return
+        if _dying[0]:
+            return
         if _k is not None and _cnt[0] == _k and os.getpid() == _pid:
-            if _tear is not None and _last[0] and os.path.isfile(_last[0]):
+            _dying[0] = True
+            # a torn write: only the file whose write-open was the immediately preceding mutation
+            # can still be incomplete (writes are sequential: any later mutation means it was closed)
+            if _tear is not None and _last[0] and _last_idx[0] == _cnt[0] - 1 and os.path.isfile(_last[0]):
                 sz = os.path.getsize(_last[0])
                 with open(_last[0], "r+b") as f:
                     f.truncate(0 if _tear == "0" else sz // 2)
@@ -73,6 +80,7 @@ if _log or _crash:
         _cnt[0] += 1
         if mut[0] == "open":
             _last[0] = mut[1]
+            _last_idx[0] = _cnt[0] - 1
 
     sys.addaudithook(_hook)
 
